@@ -202,7 +202,7 @@ class Flow:
                     self.bind(f["p"], ("field", f["name"], d), env)
         elif k == "Slice":
             for i, s in enumerate(p.get("ps", [])):
-                self.bind(s, ("index", d, i), env)
+                self.bind(s, ("pos", i) if d == ("params",) else ("index", d, i), env)
 
     @staticmethod
     def pat_ctors(p, out=None):
